@@ -1,5 +1,6 @@
 """C19 - active tags exclude exactly by the documented per-category logic."""
 import operator
+import re
 
 import z3
 
@@ -45,11 +46,13 @@ class Provider(object):
         return default
 
 
-def parse_tag(t):
-    if t is None or ".with_" not in t or "=" not in t:
+def parse_tag(t, sep="="):
+    if t is None or ".with_" not in t or sep not in t.split(".with_", 1)[1]:
         return None
     prefix, rest = t.split(".with_", 1)
-    cat, val = rest.split("=", 1)
+    cat, val = rest.split(sep, 1)
+    if not re.match(r"^\w+(\.\w+)*$", cat):
+        return None
     if prefix not in POSITIVE + NEGATIVE:
         return None
     return prefix, cat, val
@@ -61,11 +64,14 @@ def h_active(sx):
     p = sx.params
     n = p["slots"]
     tags = []
+    sep = p.get("separator", "=")
     for i in range(n):
         c = sx.choice("slot%d" % i, list(range(len(TAGS))))
         t = TAGS[c if isinstance(c, int) else c.concretize()]
         if t is not None:
-            tags.append(t)
+            tags.append(t.replace("=", sep))
+    if sep != "=":
+        tags.append("use.with_os=win")      # written with the DEFAULT separator: not an active tag of this matcher
     os_cur = sx.choice("os", OS_VALUES)
     ver_cur = sx.int("ver")
     flag_cur = sx.bool("flag")
@@ -101,6 +107,9 @@ def h_active(sx):
     elif kind == "composite":
         prov = CompositeActiveTagValueProvider([Provider(sx, {"os": values["os"]}), Provider(sx, {"ver": values["ver"], "flag": values["flag"]})])
     matcher = ActiveTagMatcher(prov)
+    if sep != "=":
+        # custom value separator - built after a default matcher exists in the same process
+        matcher = ActiveTagMatcher(prov, value_separator=sep)
     if p.get("composite_matcher"):
         other = ActiveTagMatcher({"os": "never-matches"})
         matcher = CompositeTagMatcher([matcher, other])
@@ -140,7 +149,7 @@ def h_active(sx):
     def formula(known_extra=None):
         cats = {}
         for t in tags:
-            pt = parse_tag(t)
+            pt = parse_tag(t, sep)
             if pt:
                 cats.setdefault(pt[1], []).append(pt)
         disj = []
@@ -182,7 +191,8 @@ def jobs(tier, seed):
     variants = [{"ver_compare": "ge"}, {"ver_compare": "le", "lazy": True}, {"ver_compare": "eq", "provider": "atvp"},
                 {"ver_compare": "ge", "provider": "composite"}, {"ver_compare": "ge", "composite_matcher": True},
                 {"ver_compare": "ge", "provider": "atvp-real"}, {"ver_compare": "le", "provider": "composite-real"},
-                {"ver_compare": "ge", "history": True}, {"ver_compare": "eq", "history": True, "provider": "composite-real"}]
+                {"ver_compare": "ge", "history": True}, {"ver_compare": "eq", "history": True, "provider": "composite-real"},
+                {"ver_compare": "ge", "separator": ":"}]
     for i, v in enumerate(variants):
         js.append(Job("active.v%d" % i, "props.c19:h_active", dict(v, slots=slots if i == 0 else 2),
                       reach=["C19.excluded==documented-formula"], min_paths=100, cost=1000 if i == 0 else 100,
